@@ -131,6 +131,10 @@ func registerVerifAPI(e *Engine) {
 		in.events = append(in.events, &event{name: a[0].(Str).S, fn: a[1]})
 		return nil
 	})
+	v("SpawnBudget", func(in *Interp, fr *frame, fn *ssa.Function, a []Val) Val {
+		in.spawnBudget = int(in.concInt(a[0]))
+		return nil
+	})
 	v("PreemptPoint", func(in *Interp, fr *frame, fn *ssa.Function, a []Val) Val {
 		in.preemptPoint()
 		return nil
@@ -191,6 +195,14 @@ func (in *Interp) yieldPoint(fr *frame, kind string) {
 		return
 	}
 	in.yieldCount++
+	// the yield point is identified by its key (the log message / the harness label) and
+	// the number of times that key has been reached: stable across goroutine interleavings
+	yc, _ := in.side["yieldCounts"].(map[string]int)
+	if yc == nil {
+		yc = map[string]int{}
+		in.side["yieldCounts"] = yc
+	}
+	yc[kind]++
 	k := in.Choose(len(pend) + 1)
 	if k == 0 {
 		return
@@ -198,10 +210,12 @@ func (in *Interp) yieldPoint(fr *frame, kind string) {
 	ev := pend[k-1]
 	ev.fired = true
 	in.injBudget--
-	in.inputs = append(in.inputs, Input{Kind: "choose", Conc: int64(in.yieldCount), Label: "inject:" + ev.name + "@" + kind + ":" + fr.fn.Name()})
+	in.inputs = append(in.inputs, Input{Kind: "choose", Conc: int64(yc[kind]), Label: "inject:" + ev.name + "@" + kind})
 	in.inInjection = true
+	in.injThread = in.cur
 	in.call(fr, ev.fn, nil)
 	in.inInjection = false
+	in.injThread = nil
 }
 
 func init() { _ = fmt.Sprint }
